@@ -21,7 +21,7 @@ def laws(rng, quick):
     L = []
     ints = lambda bits, signed: sorted({0, 1, -1, 2, 127, 128, 255, 256, (1 << (bits - 1)) - 1, (1 << (bits - 1)), -(1 << (bits - 1)), -(1 << (bits - 1)) - 1,
                                         (1 << bits) - 1, (1 << bits), rng.randrange(1 << bits), -rng.randrange(1 << bits)}) + ["x", None, 1.5]
-    widths = [1, 2, 3, 4] if quick else [1, 2, 3, 4, 5, 8, 16]
+    widths = [1, 2, 3, 4, 7, 8, 16] if quick else [1, 2, 3, 4, 5, 6, 7, 8, 9, 12, 16]       # from 7 bytes on, 2**(8n-1) is not a double
     for n in widths:
         for signed in (False, True):
             for swapped in (False, True):
@@ -70,6 +70,10 @@ def laws(rng, quick):
         a = 1; b = 2; c = 0x80          # (Python does not iterate zero-valued members of an IntFlag: not part of the law)
     class G(enum.IntEnum):
         none = 0; read = 1; write = 2
+    class EA(enum.IntEnum):             # aliases are not members: iterating the class yields the canonical names only
+        one = 1; uno = 1; two = 2; dos = 2; three = 3
+    class FC(enum.IntFlag):             # nor are composite masks
+        r = 4; w = 2; x = 1; rw = 6
     evals = [0, 1, 2, 3, 255, 256, "one", "two", "zero", "big", "nosuch", None, -1]
     fvals = [0, 1, 3, 0x83, 255, "a", "a|b", " b | c ", "none", "none|a", "zz", {"a": True, "b": False}, {"none": True, "c": True}, {"zz": True}, None,
              "read", "read|write", {"read": True, "none": True}]
@@ -80,6 +84,13 @@ def laws(rng, quick):
                   A.FlagsEnum(sub, a=1, b=2, c=0x80), [0, 1, 2], fvals))
         L.append(("FlagsEnum(IntEnum)<->FlagsEnum(keywords)", ({"k": "Opaque", "desc": "FlagsEnum(sub, G)"}, lambda sub=sub: cs.FlagsEnum(A.realize(sub), G)),
                   A.FlagsEnum(sub, none=0, read=1, write=2), [0, 1, 2], fvals))
+    for sub in (A.Alias("Byte"),):
+        L.append(("Enum(IntEnum with aliases)<->Enum(keywords)", ({"k": "Opaque", "desc": "Enum(sub, EA)"}, lambda sub=sub: cs.Enum(A.realize(sub), EA)),
+                  A.Enum(sub, **{m.name: int(m.value) for m in EA}), [0, 1, 2], [0, 1, 2, 3, 4, "one", "uno", "two", "dos", "three", None]))
+        L.append(("FlagsEnum(IntFlag with masks)<->FlagsEnum(keywords)", ({"k": "Opaque", "desc": "FlagsEnum(sub, FC)"}, lambda sub=sub: cs.FlagsEnum(A.realize(sub), FC)),
+                  A.FlagsEnum(sub, **{m.name: int(m.value) for m in FC}), [0, 1, 2], [0, 1, 2, 4, 6, 7, "r", "rw", "r|w", {"r": True}, {"rw": True}, None]))
+        L.append(("Enum(IntFlag with masks)<->Enum(keywords)", ({"k": "Opaque", "desc": "Enum(sub, FC)"}, lambda sub=sub: cs.Enum(A.realize(sub), FC)),
+                  A.Enum(sub, **{m.name: int(m.value) for m in FC}), [0, 1, 2], [0, 1, 2, 4, 6, 7, "r", "rw", None]))
     # operator spellings
     by, sh = A.Alias("Byte"), A.Alias("Int16ub")
     L.append(("x[n]<->Array(n,x)", ({"k": "Opaque", "desc": "Byte[3]"}, lambda: cs.Byte[3]), A.Array(3, by), [2, 3, 4], [[1, 2, 3], [1, 2], [1, 2, 3, 4], None, [256, 0, 0]]))
